@@ -107,8 +107,16 @@ class C21(Property):
         rng = ctx.rng
         names = list(polar_aliases) + POLAR
         ops = []
+        val = lambda: fx(rng.choice([rng.uniform(-1e3, 1e3), 0.0, 0.0, float(rng.randint(-5, 5))]))  # zero often: overwriting with 0
         for _ in range(rng.randint(1, 8)):
-            if rng.random() < 0.55:
+            r = rng.random()
+            if r < 0.25:  # obj.set_aberrations({...}); repeated names within the history are intended
+                pool = ops and [o[1] for o in ops if o[0] == "s"] or []
+                items = [[rng.choice(pool + names + ["defocus"]), val()] for _ in range(rng.randint(1, 3))]
+                if len({i[0] for i in items}) == len(items):
+                    ops.append(["u", items])
+                    continue
+            if r < 0.55:
                 ops.append(["s", rng.choice(names + ["defocus", "defocus"]), fx(rng.choice([rng.uniform(-1e3, 1e3), 0.0, float(rng.randint(-5, 5))]))])
             else:
                 ops.append(["g", rng.choice(names + ["defocus", "defocus"] + JUNK)])
@@ -124,6 +132,9 @@ class C21(Property):
             try:
                 if op[0] == "s":
                     setattr(obj, op[1], ufx(op[2]))
+                    outs.append("ok")
+                elif op[0] == "u":
+                    obj.set_aberrations({n: ufx(v) for n, v in op[1]})
                     outs.append("ok")
                 else:
                     outs.append(str(bits(float(getattr(obj, op[1])))))
@@ -146,7 +157,9 @@ class C21(Property):
             lines += [f"transfer {bits(a)} {bits(p)} {bits(wl)} {bl(values)}" for a, p in zip(alpha, phi)]
         a0 = len(lines)
         for c in acases:
-            lines.append("attrs " + ";".join("s=%s=%d" % (o[1], bits(ufx(o[2]))) if o[0] == "s" else f"g={o[1]}" for o in c["ops"]))
+            lines.append("attrs " + ";".join(
+                "s=%s=%d" % (o[1], bits(ufx(o[2]))) if o[0] == "s" else
+                "u=" + "=".join("%s=%d" % (n, bits(ufx(v))) for n, v in o[1]) if o[0] == "u" else f"g={o[1]}" for o in c["ops"]))
         outs = drv.query(lines)
         ctx.agree("polar_symbols keys (order)", "symbols", outs[0], "ok " + ",".join(polar_symbols.keys()))
         ctx.agree("fresh dict keys == polar_symbols keys", "symbols", list(Aberrations(energy=1e5).aberration_coefficients.keys()),
@@ -175,9 +188,12 @@ class C21(Property):
             ctx.agree(f"{c['cls']} attribute protocol (__setattr__/__getattr__/defocus) vs model", c, o, [res, vals], ok=ok)
             ctx.count("attrs:" + c["cls"])
             for op in c["ops"]:
+                if op[0] == "u":
+                    ctx.count("attr-op:u:set_aberrations:" + ("with-zero" if any(ufx(v) == 0 for _, v in op[1]) else "nonzero"))
+                    continue
                 ctx.count("attr-op:" + op[0] + ":" + ("defocus" if op[1] == "defocus" else "junk" if op[1] in JUNK else
                                                         "symbol" if op[1] in POLAR else "alias"))
-            ctx.case(c, nontrivial=any(op[0] == "s" for op in c["ops"]))
+            ctx.case(c, nontrivial=any(op[0] in "su" for op in c["ops"]))
         ctx.traces += len(tcases) + len(acases)
 
     # ------------------------------------------------------------------ conformance (independent of the Lean model)
@@ -253,6 +269,45 @@ class C21(Property):
                 ka, kb = (np.asarray(o._evaluate_from_angular_grid(alpha, phi)) for o in (a, b))
                 if not np.array_equal(ka, kb):
                     return ctx.violation("alias-and-symbol-give-different-transfer-functions", c, {"max_abs_diff": float(np.abs(ka - kb).max())})
+            elif chk == "history":
+                # a history of updates on ONE object (constructor kwargs, set_aberrations, attribute writes; aliases and symbols; values
+                # overwritten with 0) must leave it in the state of a fresh object built from the last value written per coefficient
+                mk = {"Aberrations": lambda **k: tr.Aberrations(energy=energy, **k), "CTF": lambda **k: tr.CTF(energy=energy, **k),
+                      "SpatialEnvelope": lambda **k: tr.SpatialEnvelope(angular_spread=1.0, energy=energy, **k)}[c["cls"]]
+                steps = c["steps"]
+                expected = {}
+
+                def note(name, v):
+                    sym = polar_aliases.get(name, name)
+                    expected[sym] = -v if name == "defocus" else v
+
+                first = {n: ufx(v) for n, v in steps[0][1]}
+                obj = mk(**first) if steps[0][0] == "kwargs" else mk(aberration_coefficients=first)
+                for n, v in first.items():
+                    note(n, v)
+                for how, items in steps[1:]:
+                    vals = {n: ufx(v) for n, v in items}
+                    if how == "set_aberrations":
+                        obj.set_aberrations(vals)
+                    else:
+                        for n, v in vals.items():
+                            setattr(obj, n, v)
+                    for n, v in vals.items():
+                        note(n, v)
+                got = {k: float(v) for k, v in obj.aberration_coefficients.items()}
+                want = {k: float(expected.get(k, 0.0)) for k in got}
+                if got != want:
+                    bad = {k: (got[k], want[k]) for k in got if got[k] != want[k]}
+                    return ctx.violation("update-history-leaves-stale-coefficient", c, {"observed_vs_expected": bad})
+                alpha = arr(c["alpha"], (3, 4))
+                phi = arr(c["phi"], (3, 4))
+                fresh = tr.Aberrations(aberration_coefficients=want, energy=energy)
+                src = obj if c["cls"] == "Aberrations" else tr.Aberrations(aberration_coefficients=dict(obj.aberration_coefficients), energy=energy)
+                ka, kb = (np.asarray(o._evaluate_from_angular_grid(alpha, phi)) for o in (src, fresh))
+                if c["cls"] == "CTF":
+                    ka = np.asarray(obj._evaluate_from_angular_grid(alpha, phi))
+                if ka.shape != kb.shape or np.abs(ka - kb).max() > tol:
+                    return ctx.violation("update-history-changes-the-transfer-function", c, {"max_abs_diff": float(np.abs(ka - kb).max())})
             elif chk == "ensemble":
                 import abtem
 
@@ -289,6 +344,25 @@ class C21(Property):
             c["alias"] = rng.choice(list(polar_aliases))
             if "angle" in c["alias"]:
                 c["value"] = fx(rng.uniform(-math.pi, math.pi))
+        if chk == "history":
+            names = list(polar_aliases) + POLAR
+            c["cls"] = rng.choice(["Aberrations", "CTF", "SpatialEnvelope"])
+            c["precision"] = "float64"
+
+            def items(pool):
+                ns = rng.sample(pool, rng.randint(1, 3))
+                out = []
+                for n in ns:
+                    sym = polar_aliases.get(n, n)
+                    scale = math.pi if sym.startswith("phi") else SCALE[int(sym[1])]
+                    out.append([n, fx(rng.choice([rng.uniform(-1, 1) * scale, 0.0, 0.0]))])
+                return out
+
+            steps = [[rng.choice(["kwargs", "dict"]), [[n, fx(ufx(v) if ufx(v) != 0 else 1.0)] for n, v in items(names)]]]
+            for _ in range(rng.randint(1, 4)):
+                touched = [n for st in steps for n, _ in st[1]]
+                steps.append([rng.choice(["set_aberrations", "set_aberrations", "setattr"]), items(touched + touched + names)])
+            c["steps"] = steps
         if chk == "ensemble":
             c["symbol"] = rng.choice(POLAR)
             scale = math.pi if c["symbol"].startswith("phi") else SCALE[int(c["symbol"][1])] * (1e-3 if prec == "float32" else 1)
@@ -299,7 +373,7 @@ class C21(Property):
         from abtem.transfer import polar_aliases
 
         for chk, n in (("alias-table", 1), ("kirkland", ctx.n(80, 1500)), ("rotation", ctx.n(60, 1200)), ("defocus", ctx.n(20, 300)),
-                       ("alias", ctx.n(75, 1000)), ("ensemble", ctx.n(25, 400))):
+                       ("alias", ctx.n(75, 1000)), ("history", ctx.n(120, 2500)), ("ensemble", ctx.n(25, 400))):
             for i in range(n):
                 c = self.gen_conf(ctx, chk)
                 if chk == "alias" and i < len(polar_aliases):  # every alias at least once per run
